@@ -1,6 +1,7 @@
 package main
 
 import (
+	"sort"
 	"fmt"
 	"go/ast"
 	"go/token"
@@ -192,8 +193,10 @@ func (s *state) step(b *ssa.BasicBlock, ii int, in ssa.Instruction) bool {
 	case *ssa.TypeAssert:
 		x := s.get(d.X)
 		if _, isIface := d.AssertedType.Underlying().(*types.Interface); isIface {
-			// interface-to-interface assertion: succeeds iff non-nil (method sets are not modelled)
-			ok := not(eq(x.S[0], "0"))
+			// interface-to-interface assertion: succeeds iff the value is non-nil and its
+			// dynamic type implements the interface - an uninterpreted predicate over type ids,
+			// fixed by go/types for every concrete type the engine has numbered
+			ok := and(not(eq(x.S[0], "0")), s.implTerm(x.S[0], d.AssertedType))
 			if d.CommaOk {
 				s.vals[d] = Val{T: d.Type(), S: append(append([]string{}, x.S...), ok)}
 			} else {
@@ -333,8 +336,14 @@ func (s *state) step(b *ssa.BasicBlock, ii int, in ssa.Instruction) bool {
 		return s.doCall(b, ii, d)
 	case *ssa.Go, *ssa.Send, *ssa.Select:
 		panic(engineErr("concurrency primitive"))
-	case *ssa.Range, *ssa.Next:
-		panic(engineErr("range over map/string is not supported in " + funcKey(b.Parent())))
+	case *ssa.Range:
+		// iteration over a map or string: the iterator carries no information
+		s.vals[d] = Val{T: d.Type(), S: []string{"0"}}
+	case *ssa.Next:
+		// over-approximation: whether there is a next element, and which, is arbitrary (sound for
+		// every property that does not depend on the map's / string's content or order)
+		u.notes["map/string iteration in "+funcKey(b.Parent())+" is modelled as an arbitrary sequence of elements"] = true
+		s.vals[d] = s.symVal("next", d.Type())
 	default:
 		panic(engineErr(fmt.Sprintf("unsupported instruction %T: %s", in, in)))
 	}
@@ -780,6 +789,42 @@ func (s *state) checkReads(addr string, n int64, in ssa.Instruction) {
 
 // loopBodyHints runs the `loop k inbody use ...` proof steps when control
 // goes from a loop header into the loop body
+// implTerm: "the dynamic type with id tid implements interface it"
+func (s *state) implTerm(tid string, it types.Type) string {
+	u := s.u
+	name := "impl_" + tname(it)
+	f := u.declareFun(name, []string{"Int"}, "Bool")
+	iface, _ := it.Underlying().(*types.Interface)
+	if u.implFacts == nil {
+		u.implFacts = map[string]bool{}
+	}
+	if iface != nil {
+		var ids []int
+		for id := range u.eng.typeByID {
+			ids = append(ids, id)
+		}
+		sort.Ints(ids)
+		for _, id := range ids {
+			key := fmt.Sprintf("%s/%d", name, id)
+			if u.implFacts[key] {
+				continue
+			}
+			u.implFacts[key] = true
+			t := u.eng.typeByID[id]
+			if _, isIface := t.Underlying().(*types.Interface); isIface {
+				continue
+			}
+			fact := fmt.Sprintf("(%s %d)", f, id)
+			if !types.Implements(t, iface) {
+				fact = not(fact)
+			}
+			u.implAxioms = append(u.implAxioms, fact)
+		}
+	}
+	// (the facts are global truths: queryStage adds them to every query that mentions the predicate)
+	return fmt.Sprintf("(%s %s)", f, tid)
+}
+
 func (s *state) loopBodyHints(hdr, succ *ssa.BasicBlock) {
 	if !isLoopHeader(hdr) {
 		return
